@@ -4,11 +4,11 @@
 (*              distinct points than clusters" are included), every k <= min(n, MaxK), every     *)
 (*              tuple of precomputed lattice centroids (ordered for k <= 2, sorted for k = 3;    *)
 (*              2 features and k >= 2: from corners, centre and an edge midpoint),               *)
-(*              budgets 1..MaxB, new observations = the whole grid plus one point outside on     *)
+(*              budgets 1..MaxB, n_runs 1..3, new observations = the whole grid plus one point outside on     *)
 (*              either side.  Metric / float type / calling form: all variants for n <= 3 - f,   *)
 (*              one variant picked by a checksum of the input otherwise (half of them f64 + l2). *)
 (*  "restart" : datasets as above (n >= 2), k, initialiser random / k-means++ (n_runs 1..Runs)   *)
-(*              and k-means|| (one run), seeds, run to convergence or for 1 / 2 iterations.      *)
+(*              and k-means|| (one run), seeds, budgets 1, 2, 3 in turn or run to convergence.   *)
 EXTENDS Integers, Sequences, FiniteSets, TLC, Json
 
 CONSTANTS Grid1, MaxN1,      \* traj, 1 feature : points on 0..Grid1
@@ -69,6 +69,8 @@ Traj ==
        case = [kind |-> "traj",
                inp |-> [ft |-> v[1], metric |-> v[2], form |-> v[3], f |-> f, pts |-> pts, c0 |-> c0,
                         qs |-> Queries(f, g), ms |-> [m \in 1..(IF n <= DeepN THEN MaxB + 1 ELSE MaxB) |-> m],
+                        \* restarts from the same precomputed centroids: n_runs must not change anything
+                        nruns |-> <<1, 2, 1, 3>>[((Check(pts, c0) \div 32) % 4) + 1],
                         tol |-> tol]]
 
 Restart ==
@@ -80,11 +82,12 @@ Restart ==
      \E pts \in SortedSeqs(P, n), init \in {"random", "kmpp", "kmpara"}, seed \in Seeds :
      LET h == Check(pts, <<>>) + k + seed
          v == Variants(f)[(h % 8) + 1]
-         mi == <<300, 1, 300, 2>>[((h \div 8) % 4) + 1]      \* iteration budget: converged, or 1 / 2 iterations
+         \* iteration budgets: 1, 2, 3 one after the other (same seed), or run to convergence
+         mi == IF (h \div 8) % 2 = 0 THEN <<1, 2, 3>> ELSE <<300>>
      IN
        case = [kind |-> "restart",
                inp |-> [ft |-> v[1], metric |-> v[2], f |-> f, pts |-> pts, k |-> k, init |-> init,
-                        seed |-> seed, runs |-> IF init = "kmpara" THEN 1 ELSE Runs, maxit |-> mi,
+                        seed |-> seed, runs |-> IF init = "kmpara" THEN 1 ELSE Runs, maxits |-> mi,
                         qs |-> Queries(f, g), tol |-> <<1, 1000000>>]]
 
 Init == Traj \/ Restart
